@@ -243,6 +243,18 @@ def model_case(rng, t, opt):
                 elif q < 0.92:
                     pre.append((trel, "file", b"link target %d" % len(pre), 0o644))
                 pre.append((rels, "link", tn.encode(), 0o777))
+    # something already there where a symbolic link entry belongs: it is replaced without a question
+    for it in t.items:
+        if it["ty"] in ("link", "unsafe") and rng.random() < 0.35:
+            rel = wd + (it["p"].split(b"/")[-1] if "i" in opt else it["p"])
+            if rel in seen:
+                continue
+            seen.add(rel)
+            rels = rel.decode("ascii")
+            if rng.random() < 0.6:
+                pre.append((rels, "file", b"in the way %d" % len(pre), 0o644))
+            else:
+                pre.append((rels, "link", b"zz_nowhere", 0o777))
     lines = [rng.choice([b"y", b"n", b"", b"Y", b"N", b"x", b"yes", b"no way", b"  y", b"q", b"A", b"S", b"a", b"s"]) for _ in range(rng.randint(0, 6))]
     if rng.random() < 0.75:
         lines.append(rng.choice([b"a", b"s", b"All", b"skip"]))        # (otherwise the input may end at a prompt: the tool exits there)
